@@ -5,6 +5,26 @@ the state that results), so that the invariant proofs never have to unfold `step
 -/
 namespace GixModel.C12
 
+@[simp] theorem setPackAt_ident (b : Bundle) (j : Nat) (st : LoadSt) : (b.setPackAt j st).ident = b.ident := by
+  cases j <;> rfl
+@[simp] theorem setPackAt_stamp (b : Bundle) (j : Nat) (st : LoadSt) : (b.setPackAt j st).stamp = b.stamp := by
+  cases j <;> rfl
+@[simp] theorem setPackAt_file (b : Bundle) (j : Nat) (st : LoadSt) : (b.setPackAt j st).file = b.file := by
+  cases j <;> rfl
+@[simp] theorem setPackAt_multi (b : Bundle) (j : Nat) (st : LoadSt) : (b.setPackAt j st).multi = b.multi := by
+  cases j <;> rfl
+@[simp] theorem setPackAt_idx (b : Bundle) (j : Nat) (st : LoadSt) : (b.setPackAt j st).idx = b.idx := by
+  cases j <;> rfl
+theorem mem_entriesOf {k : Nat} {b : Bundle} {e : Entry} (h : e ∈ entriesOf k b) :
+    e.slot = k ∧ e.id = b.ident ∧ e.multi = b.multi ∧ ∀ p, e.pack = some p → p = b.ident := by
+  simp only [entriesOf, List.mem_map] at h
+  obtain ⟨j, _, rfl⟩ := h
+  refine ⟨rfl, rfl, rfl, ?_⟩
+  intro p hp
+  simp only [entryAt] at hp
+  split at hp
+  · cases hp; rfl
+  · cases hp
 @[simp] theorem setSlot_slots (s : Sys) (k : Nat) (sl : Slot) (j : Nat) :
     (s.setSlot k sl).slots j = if j = k then sl else s.slots j := rfl
 @[simp] theorem setSlot_handles (s : Sys) (k : Nat) (sl : Slot) : (s.setSlot k sl).handles = s.handles := rfl
@@ -69,7 +89,7 @@ theorem inv_collSlot {s s' : Sys} {h : Nat} (hs : step s (Ev.collSlot h) = some 
     ∃ c k rest, (s.handles h).coll = some c ∧ c.todo = k :: rest ∧
       s' = s.setHandle h { s.handles h with coll := some { c with todo := rest, acc :=
         match (s.slots k).files with
-        | some b => if b.idx.isLoaded then c.acc ++ [entryOf k b] else c.acc
+        | some b => if b.idx.isLoaded then c.acc ++ entriesOf k b else c.acc
         | none => c.acc } } := by
   simp only [step] at hs
   split at hs
@@ -183,9 +203,9 @@ theorem inv_lp5 {s s' : Sys} {h : Nat} (hs : step s (Ev.lp5 h) = some s') :
        ∨ (∃ b', (s.cfg.recheck = true → (s.slots e.slot).gen ≤ (s.handles h).g)
             ∧ (s.slots e.slot).files = some b'
             ∧ (s' = s.ret h (s.handles h) i e b'.ident
-               ∨ s' = (s.setSlot e.slot { s.slots e.slot with files := some { b' with pack := LoadSt.loaded } }).ret
+               ∨ s' = (s.setSlot e.slot { s.slots e.slot with files := some (b'.setPackAt e.pk LoadSt.loaded) }).ret
                         h (s.handles h) i e b'.ident
-               ∨ s' = (s.setSlot e.slot { s.slots e.slot with files := some { b' with pack := LoadSt.missing } }).setHandle
+               ∨ s' = (s.setSlot e.slot { s.slots e.slot with files := some (b'.setPackAt e.pk LoadSt.missing) }).setHandle
                         h { s.handles h with pc := RPc.idle }))) := by
   simp only [step] at hs
   split at hs
@@ -267,6 +287,29 @@ theorem inv_consSetGen {s s' : Sys} {k : Nat} (hs : step s (Ev.consSetGen k) = s
         cases hff : (s.slots k).files <;> simp_all
     · cases hs
   · cases hs
+
+theorem inv_consSetFilesM {s s' : Sys} {k file extra : Nat}
+    (hs : step s (Ev.consSetFilesM k file extra) = some s') :
+    ∃ c, s.cons = some c ∧ c.published = false ∧ c.pending = some k ∧
+      s' = { (s.setSlot k { s.slots k with
+                files := some { stamp := s.nextStamp, file := file, multi := true,
+                                idx := LoadSt.loaded, pack := LoadSt.unloaded,
+                                more := List.replicate extra LoadSt.unloaded },
+                wlock := false }) with
+             cons := some { c with pending := none }, nextStamp := s.nextStamp + 1 } := by
+  simp only [step] at hs
+  split at hs
+  · rename_i c hc
+    split at hs
+    · rename_i hg; cases hs; exact ⟨c, hc, hg.1, hg.2, rfl⟩
+    · cases hs
+  · cases hs
+
+theorem replicate_unloaded_not_disposable (n : Nat) :
+    (List.replicate n LoadSt.unloaded).any LoadSt.isDisposable = false := by
+  induction n with
+  | zero => rfl
+  | succ n ih => simp [List.replicate_succ, LoadSt.isDisposable, ih]
 
 theorem inv_consSetFiles {s s' : Sys} {k file : Nat} {multi : Bool}
     (hs : step s (Ev.consSetFiles k file multi) = some s') :
